@@ -116,8 +116,15 @@ def outcomes(prog, eff, b):
 
 
 def facts_of(b, o):
+    from .mir import rels_of_bool
     pos, _t, extra = o
-    return list(b.facts_at(pos)) + list(extra)
+    out = list(b.facts_at(pos))
+    for r in extra:
+        if r[0] == 'bool':
+            out.extend(rels_of_bool(r[1], r[2]))
+        else:
+            out.append(r)
+    return out
 
 
 _VARIANT_IDX = {"Option": {"None": 0, "Some": 1}, "Result": {"Ok": 0, "Err": 1}}
